@@ -31,6 +31,7 @@ RULE += ' Round 7: float64 templates hold genuinely double values and single-tem
 RULE += ' Round 8: uint16 assignments with far ids and 300-template datasets made deterministic cases (guard against RNG drift).'
 RULE += ' Round 11: every file of the dataset carrying one modification time; a 24000-spike cluster merged from two templates of which the minor one fires first.'
 RULE += ' Round 12: probe tables; templates with exactly silent channels.'
+RULE += ' Round 13: valid thresholded template requests (gen/poke) before the judged calls.'
 EXHAUSTIVE = {'quick': False, 'thorough': False}
 FLOORS = {'quick': {'evaluations': 1100, 'distinct_nontrivial': 400},
           'thorough': {'evaluations': 15000, 'distinct_nontrivial': 4000}}
